@@ -52,7 +52,9 @@ def run(ctx):
     # corpus: the defects seen at design time
     triples = [(1, 0.0, 0.12), (1, 0.12, 0.0), (0, 1.0, 0.75), (2, 5.0, 4.9)] + triples
     # long catch-up moves: tens of thousands of steps in one go (rounding must not accumulate)
-    longs = [(0, 0.0, 3000.0), (0, 10000.0, 0.0), (4, 1000.0, 1030.0), (1, -250.0, 1250.0 + ctx.rng.random())]
+    longs = [(0, 0.0, 3000.0), (0, 10000.0, 0.0), (4, 1000.0, 1030.0), (1, -250.0, 1250.0 + ctx.rng.random()),
+             # more than a hundred thousand steps in one move (a filter left idle): still none longer than the maximum
+             (4, 0.0, 150.0 + ctx.rng.random()), (4, 20.0, -(101.0 + ctx.rng.random()))]
     triples = triples + (longs if ctx.quick else longs + [(0, 0.0, 10000.0), (3, 0.0, -65536.5), (5, 7.25, 9000.0)])
     drv = core.Driver()
     for k, cur, tgt in triples:
@@ -89,7 +91,36 @@ def run(ctx):
             elif got != want:
                 ctx.broke(f"correspondence:plan ({name} vs Lean floatTime plan, bit-exact)", {"model": want, "impl": got}, case)
     two_segment_ticks(ctx, exe)
+    generated_max_dt(ctx)
     return core.finish(ctx, audit, NOTE, RULE, PARTIAL)
+
+
+def generated_max_dt(ctx):
+    """the maximum step a generated C++ filter hands to the C++ runtime (`Tag::max_dt_sec`, the constant in the generated header) is
+    the configured value, bit for bit: a constant rounded up would make every whole step longer than the configured maximum"""
+    import cppgen
+    import ekf_h as eh
+    import fk
+    import gen
+    jobs, metas = [], []
+    for i, m in enumerate([2.0 / 3.0, 0.0123456789] if ctx.quick else [2.0 / 3.0, 0.0123456789, 1.0 / 7.0, 0.1, 250.0, 1e-3 + 1e-9, 3.3333337]):
+        d = gen.tame_definition(ctx.rng, n_state=2, n_control=1, n_sensors=1, max_readings=1)
+        d._kind = "ekf"
+        process, sensor = eh.make_noises(ctx.rng, d)
+        try:
+            g = cppgen.generate(d, process, sensor, {}, ctx.scratch, f"m{i}", max_dt=m, filtering=None, rng=ctx.rng, config_as_dict=(i % 2 == 1))
+        except Exception as e:
+            ctx.fail(f"cpp-generate-raises:{fk.exc_kind(e)}", repr(e)[:300], {"max_dt_sec": m}); continue
+        jobs.append((g, d, None)); metas.append(m)
+    for m, (exe, err) in zip(metas, cppgen.build_many(jobs)):
+        case = {"stream": "generated-max-dt", "max_dt_sec": m}
+        ctx.case(case, True); ctx.count("stream=generated-max-dt")
+        if exe is None:
+            ctx.fail("generated-cpp-does-not-compile", err[-300:], case); continue
+        got = rh.bitsf(cppgen.run_exe(exe, ["layout"])[0]["config.max_dt_sec"])
+        if got != float(m):
+            ctx.fail("plan:cpp:generated-max-dt", f"the generated C++ filter tells the runtime max_dt_sec = {got!r}, configured {m!r}"
+                     + (": every whole step is longer than the configured maximum" if got > m else ""), case)
 
 
 def two_segment_ticks(ctx, exe):
